@@ -167,6 +167,9 @@ func lwDefs() []lwDef {
 			cfg: map[string]string{"AutoHarvest": "1", "AutoFertilization": "1"}},
 		{name: "sand-automatic-harvest-at-any-moisture", soil: "sand20", gw: 14, et: 3, start: s1, days: 760, initW: 0.7, initN: 40, autoRot: 1, autoTable: 9,
 			cfg: map[string]string{"AutoHarvest": "1"}},
+		{name: "humous-sand-series-rising-to-1dm", soil: "sand20", gw: 99, series: [][2]float64{{-5, 14}, {60, 2}, {120, 1}, {200, 6}, {300, 1.5}, {420, 18}}, et: 3, start: s2, days: 440, initW: 0.7, initN: 30,
+			rot:  []proj.CropEntry{{Crop: "SW", Sow: "2002-03-25", Harvest: "2002-08-20", Rex: 50}, {Crop: "WW", Sow: "2002-10-01", Harvest: "2003-08-05"}},
+			fert: []proj.Fert{{Date: "2002-04-10", Amount: 70, Kind: "KAS"}}},
 		{name: "loam-constant-series-12", soil: "silt20", gw: 99, series: [][2]float64{{-5, 12}, {100, 12}, {333, 12}, {500, 12}}, constSeries: true, et: 3, start: s2, days: 520, initW: 0.7, initN: 30,
 			rot:  []proj.CropEntry{{Crop: "SW", Sow: "2002-03-25", Harvest: "2002-08-20", Rex: 50}, {Crop: "WW", Sow: "2002-10-01", Harvest: "2003-08-05"}},
 			fert: []proj.Fert{{Date: "2002-04-10", Amount: 70, Kind: "KAS"}, {Date: "2003-03-10", Amount: 90, Kind: "KAS"}}},
